@@ -460,14 +460,14 @@ pub fn roundtrip<S: QSerde, D: QSerde, const N: usize>(with_hint: bool) {
 /// it; never a panic
 pub fn arbitrary<D: QSerde, const L: usize, const SEQ: u32>(with_hint: bool) {
     let mut p = Pairs { items: [(0, 0, 0); MAXL], len: L, hint: if with_hint { Some(L) } else { None } };
-    let mut keys: u16 = 0;
+    let mut keys: u32 = 0;
     let mut distinct = 0usize;
     let mut j = 0;
     while j < L {
         let k = crate::bulk::key_of(SEQ, j);
         p.items[j] = (k, sym::u8(), sym::u8());
-        if keys & (1u16 << k) == 0 {
-            keys |= 1u16 << k;
+        if keys & (1u32 << k) == 0 {
+            keys |= 1u32 << k;
             distinct += 1;
         }
         j += 1;
@@ -479,13 +479,13 @@ pub fn arbitrary<D: QSerde, const L: usize, const SEQ: u32>(with_hint: bool) {
             // of the item values given for it); the length agrees with the contents
             crate::chk::assert_inv(&d);
             assert!(d.len() == distinct, "SERDE: len() is the number of distinct items of the sequence");
-            let mut seen: u16 = 0;
+            let mut seen: u32 = 0;
             let mut s = 0;
             while s < d.s_map_len() {
                 let (i, pr) = d.s_slot(s).unwrap();
-                assert!(i.key < 16 && keys & (1u16 << i.key) != 0, "SERDE: stored item occurs in the sequence");
-                assert!(seen & (1u16 << i.key) == 0, "SERDE: every distinct item is stored once");
-                seen |= 1u16 << i.key;
+                assert!(i.key < 16 && keys & (1u32 << i.key) != 0, "SERDE: stored item occurs in the sequence");
+                assert!(seen & (1u32 << i.key) == 0, "SERDE: every distinct item is stored once");
+                seen |= 1u32 << i.key;
                 let mut prio_ok = false;
                 let mut pay_ok = false;
                 let mut j = 0;
